@@ -35,10 +35,12 @@ Pads          == {"none", "lead", "trail", "dblsp", "tab"}
 L(key, prio, name, val) == [key |-> key, prio |-> prio, name |-> name, val |-> val, term |-> "LF", pad |-> "none"]
 
 \* base pointers: extension priority lists
-ExtSets == { <<>>, <<0>>, <<1, 5>>, <<0, 9>> }      \* priorities; the second extension's name has a hyphen and a dot
+\* priorities; the second extension's name has a hyphen and a dot.  Between them the lists use every
+\* priority 0..9, so that the "dup" extra line below can collide at each of them.
+ExtSets == { <<>>, <<0>>, <<1, 5>>, <<0, 9>>, <<2, 3, 4>>, <<6, 7, 8>> }
 Canonical(sizeC, exts) ==
    <<L("version", -1, "", "latest")>>
-   \o [i \in 1..Len(exts) |-> L("ext", exts[i], IF i = 1 THEN "foo" ELSE "my-ext.v2", "ok2")]   \* keys may use [a-z] [0-9] . -
+   \o [i \in 1..Len(exts) |-> L("ext", exts[i], IF i = 1 THEN "foo" ELSE IF i = 2 THEN "my-ext.v2" ELSE "zz", "ok2")]   \* keys may use [a-z] [0-9] . -
    \o <<L("oid", -1, "", "ok1"), L("size", -1, "", sizeC)>>
 
 \* start from a canonical pointer, or from the empty document (docs/spec.md: "an empty file is the
@@ -53,11 +55,11 @@ Replace(i, ln) == [doc EXCEPT ![i] = ln]
 InsertAt(i, ln) == SubSeq(doc, 1, i - 1) \o <<ln>> \o SubSeq(doc, i, Len(doc))   \* before position i (i may be Len+1)
 DeleteAt(i) == SubSeq(doc, 1, i - 1) \o SubSeq(doc, i + 1, Len(doc))
 
-ExtraLines == { L("other", -1, "", "x"),          \* unknown key
+ExtraLines == { L("ext", p, "dup", "ok2") : p \in 0..9 } \cup    \* another extension at priority p (collides where the base uses p)
+              { L("other", -1, "", "x"),          \* unknown key
                 L("nospace", -1, "", ""),         \* a line without a space
                 L("blank", -1, "", ""),           \* empty line
                 L("Oid", -1, "", "ok1"),          \* key in the wrong case
-                L("ext", 0, "dup", "ok2"),        \* extension, priority 0 (may collide)
                 L("ext", 10, "ten", "ok2"),       \* priority out of range
                 L("ext", -1, "neg", "ok2"),       \* negative priority
                 L("ext", 3, "bad", "upper"),      \* extension with a bad oid
